@@ -27,6 +27,7 @@
 -/
 import PgVerif.Proofs.ToastReasm
 import PgVerif.Proofs.ToastStats
+import PgVerif.Proofs.ToastHoles
 namespace PgVerif.Props.C08
 open PgVerif PgVerif.Model PgVerif.Model.Toast PgVerif.Spec PgVerif.Spec.Toast PgVerif.Proofs.Toast
 
@@ -95,6 +96,54 @@ theorem C08_reassemble (zlib : Bytes → Nat → Option Bytes) (lay : Layout) (h
   apply reassemble_value zlib _ v hv
   rw [List.filter_map]
   exact hs.map toChunk
+
+/-! #### pages as deletes + VACUUM leave them
+
+`encToastRelH lay holes` puts non-NORMAL line pointers (`Spec.Toast.Hole`: LP_UNUSED — all-zero —, LP_DEAD without or with
+storage, LP_REDIRECT) before, between and behind the NORMAL pointers of every page's rows; `LayoutHWF` = every page is a
+well-formed PostgreSQL page (`Spec.Page.WF`) and every row is well-formed.  The holes carry no tuple: the chunks, the
+reassembled value and the statistics are those of the dense relation. -/
+
+/-- `C08_chunks` on pages with holes anywhere in the pointer arrays -/
+theorem C08_chunks_holes (lay : Layout) (holes : List Holes) (h : LayoutHWF lay holes) :
+    readTOASTTable (encToastRelH lay holes) = .ok (lay.liveRows.map toChunk) :=
+  readTOASTTable_layoutH lay holes h
+
+/-- `C08_reassemble` on pages with holes: whatever unused, dead (with or without storage) and redirect pointers lie before,
+between and behind the pointers of the chunks, the value the relation `Stores` is returned byte for byte -/
+theorem C08_reassemble_holes (zlib : Bytes → Nat → Option Bytes) (lay : Layout) (holes : List Holes)
+    (hl : LayoutHWF lay holes) (v : ToastValue) (hv : v.WF) (hs : lay.Stores v) :
+    (do let chunks ← readTOASTTable (encToastRelH lay holes)
+        match ← parseTOASTPointer (encExtPtr (ptrOf v)) with
+        | none => pure none
+        | some p => reassembleTOAST zlib chunks p.valueID (some p)) = .ok (some v.content.original) := by
+  rw [readTOASTTable_layoutH lay holes hl, parse_ptrOf v hv]
+  simp only [ok_bind]
+  apply reassemble_value zlib _ v hv
+  rw [List.filter_map]
+  exact hs.map toChunk
+
+/-- `C08_stats_any_order` on pages with holes -/
+theorem C08_stats_holes (π : GroupOrder) (hπ : ∀ l, (π l).Perm l) (relid : Nat) (lay : Layout) (holes : List Holes)
+    (h : LayoutHWF lay holes) :
+    (lay.liveRows = [] → getTOASTVerboseInfoWith π relid (encToastRelH lay holes) = .ok none) ∧
+    (lay.liveRows ≠ [] → ∃ i, getTOASTVerboseInfoWith π relid (encToastRelH lay holes) = .ok (some i) ∧
+      StatsOK relid lay.liveRows i) :=
+  verboseInfo_layoutH_with π hπ relid lay holes h
+
+/-- a two-chunk value on a page whose pointer array reads UNUSED, NORMAL (chunk 1), UNUSED, DEAD with storage (a stale
+version of chunk 0), NORMAL (chunk 0), REDIRECT, DEAD, and a second page holding nothing but an unused pointer -/
+def holesValue : ToastValue := { id := 7, relid := 16385, content := .plain [1, 2, 3], cuts := [2, 1] }
+def holesLayout : Layout := [[{ row := { id := 7, seq := 1, data := [3] } }, { row := { id := 7, seq := 0, data := [1, 2] } }], []]
+def holesHoles : List Holes :=
+  [[[Hole.unused], [Hole.unused, Hole.deadStored { row := { id := 7, seq := 0, data := [9, 9] } }], [Hole.redirect 2, Hole.dead]],
+   [[Hole.unused]]]
+
+/-- non-vacuity of the hypotheses of `C08_reassemble_holes` -/
+example : LayoutHWF holesLayout holesHoles ∧ holesValue.WF ∧ holesLayout.Stores holesValue ∧
+    ((toastPageH (holesLayout.getD 0 []) (holesHoles.getD 0 [])).lps.map fun l => decide (l.slot?.isSome)) =
+      [false, true, false, false, true, false, false] := by
+  decide +kernel
 
 /-- a one-chunk value, toasted by a transaction that committed -/
 def unhintedValue : ToastValue := { id := 7, relid := 16385, content := .plain [1, 2, 3], cuts := [3] }
